@@ -586,6 +586,81 @@ unsafe fn scripted(d: &mut Drv) {
             riti_string_free(st.ptr);
         }
     }
+    // Composition-helper battery: the fixed method rearranges the composed text in place (old-style reph goes in front of
+    // the final conjunct, left-standing signs wait for their consonant, joiners are inserted). Every helper is on, the
+    // synthetic layout supplies the reph / ro-fola / zo-fola keys on the AltGr plane, and every text that crosses the
+    // boundary is read out: a rearrangement that cuts a text at a byte position which is not a character boundary shows
+    // as a string that is not UTF-8, and under Miri / ASan as the invalid access itself.
+    if let Some(ctx) = scripted_ctx {
+        let variants: &[(bool, bool)] = if d.small { &[(false, false)] } else { &[(false, false), (true, false), (false, true), (true, true)] };
+        for &(sugg, ansi) in variants {
+            d.call("riti_config_new");
+            let c = riti_config_new();
+            let l = CString::new(d.layouts[2].clone()).unwrap();
+            d.call("riti_config_set_layout_file");
+            riti_config_set_layout_file(c, l.as_ptr());
+            let dd = CString::new(d.data_dirs[0].clone()).unwrap();
+            d.call("riti_config_set_database_dir");
+            riti_config_set_database_dir(c, dd.as_ptr());
+            d.call("riti_config_set_fixed_suggestion");
+            riti_config_set_fixed_suggestion(c, sugg);
+            d.call("riti_config_set_ansi_encoding");
+            riti_config_set_ansi_encoding(c, ansi);
+            d.call("riti_config_set_fixed_old_reph");
+            riti_config_set_fixed_old_reph(c, true);
+            d.call("riti_config_set_fixed_old_kar_order");
+            riti_config_set_fixed_old_kar_order(c, true);
+            d.call("riti_config_set_fixed_traditional_kar");
+            riti_config_set_fixed_traditional_kar(c, true);
+            d.call("riti_config_set_fixed_auto_vowel");
+            riti_config_set_fixed_auto_vowel(c, true);
+            d.call("riti_config_set_fixed_auto_chandra");
+            riti_config_set_fixed_auto_chandra(c, true);
+            d.call("riti_context_update_engine");
+            riti_context_update_engine(ctx, c);
+            let xi = d.ctxs.iter().position(|x| x.ptr == ctx).unwrap();
+            d.ctxs[xi].fixed = true;
+            d.ctxs[xi].ansi = ansi;
+            d.ctxs[xi].on_screen = 0;
+            d.ctxs[xi].highlight = 0;
+            d.cfgs.push(LiveCfg { ptr: c, usable: true, fixed: true, ansi });
+            // keys of layouts/verif.json: k ক, f ত, r র, a া, i ি, [ ে, / hasanta, > chandrabindu, - an ASCII mark;
+            // AltGr (modifier 2): r reph, x ro-fola, z zo-fola
+            const K: u16 = 41120; const F: u16 = 41115; const R: u16 = 41127; const A: u16 = 41110; const I: u16 = 41118;
+            const X: u16 = 41133; const Z: u16 = 41135; const SLASH: u16 = 53; const MINUS: u16 = 12; const BRL: u16 = 26; const GT: u16 = 102;
+            let words: [&[(u16, u8)]; 8] = [
+                &[(K, 0), (SLASH, 0), (MINUS, 0), (K, 0), (R, 2)],
+                &[(R, 2), (K, 0)],
+                &[(K, 0), (A, 0), (R, 2)],
+                &[(I, 0), (K, 0), (X, 2), (R, 2)],
+                &[(K, 0), (SLASH, 0), (F, 0), (Z, 2), (A, 0), (GT, 0), (R, 2)],
+                &[(BRL, 0), (K, 0), (A, 0), (R, 2)],
+                &[(R, 0), (Z, 2), (I, 0)],
+                &[(MINUS, 0), (A, 0), (K, 0), (SLASH, 0), (SLASH, 0), (K, 0), (R, 2), (MINUS, 0)],
+            ];
+            for w in words.iter() {
+                for &(k, m) in w.iter() {
+                    d.call("riti_get_suggestion_for_key");
+                    let s = riti_get_suggestion_for_key(ctx, k, m, 0);
+                    d.adopt(xi, s);
+                    let i = d.suggs.len() - 1;
+                    d.readout(i);
+                }
+                d.call("riti_context_backspace_event");
+                let s = riti_context_backspace_event(ctx, false);
+                d.adopt(xi, s);
+                let i = d.suggs.len() - 1;
+                d.readout(i);
+                d.call("riti_context_finish_input_session");
+                riti_context_finish_input_session(ctx);
+                d.ctxs[xi].on_screen = 0;
+            }
+            for st in std::mem::take(&mut d.strs) {
+                d.call("riti_string_free");
+                riti_string_free(st.ptr);
+            }
+        }
+    }
     // a second context over another database directory while the first one is alive: both keep working on their own data
     // (under Miri a second context costs about a minute: only when asked for - the thorough tier does)
     if d.small && std::env::var("FFIDRV_SECOND_CTX").is_err() {
